@@ -66,7 +66,13 @@ def hypothesis_shard(payload: tuple) -> dict:
         def prop(case: dict) -> None:
             j = mod.judge(case)
             new = _absorb(res, j, case, known)
-            if new:
+            if new and args.get("collect_all"):
+                # collect-then-shrink: keep searching behind a failure (one representative per bucket is kept)
+                key = (new[0]["kind"], new[0].get("bucket", ""), tuple(new[0].get("tags", [])) if not new[0].get("bucket") else ())
+                if key not in box.setdefault("seen", set()) and len(res["failures"]) < 12:
+                    box["seen"].add(key)
+                    res["failures"].append({"discs": new[:20], "case": case})
+            elif new:
                 box["last"] = (new, case)
                 raise AssertionError(f"{len(new)} new discrepancies: {new[0]['kind']}")
 
